@@ -16,12 +16,12 @@ def run(ctx):
                                 "find_smallest_superset returns a smallest strict superset among the candidates or None when there is none, and cannot raise when the supersets of the query form a chain; "
                                 "consensus adds every retained clade exactly once as a node (child of its smallest superset) and nothing else; get_consensus_tree chains the stages with the caller's threshold. "
                                 "Lean (thorough tier): two clade supports above 1/2 share a tree (counts and weights), nested-or-disjoint supersets of a common non-empty clade have different sizes. "
-                                "relabel / clean_tree / the conversion to a Tree and the table are not under contract. Bounded stand-in: the real consensus command on families of trees over "
+                                "get_clades / _clades: clade(node) = own data indices U clades of the children, one frozen clade per clone; get_tree_from_consensus_graph labels uncovered points as outliers. relabel / clean_tree / from_dict_nx and the table are not under contract. Bounded stand-in: the real consensus command on families of trees over "
                                 "3-4 data points (and the six-point family of finding F10), both weightings, thresholds {0.5,0.6,0.75,1}; result clades must equal the clades "
                                 "whose independently computed support strictly exceeds the threshold; uncovered points must carry clone id -1; at support == threshold the command "
                                 "must still complete.")
-    ctx.trust("M-LAMINAR: the clades of ONE tree are pairwise nested or disjoint and non-empty (tree structure; get_clades is not under contract); the counting half is Lean-checked in the thorough tier (MLaminar.lean)")
-    ctx.trust("get_clades(tree) returns the set of clades of the tree; networkx DiGraph; relabel, clean_tree, get_tree_from_consensus_graph are outside the contracts (bounded stand-in only)")
+    ctx.trust("M-LAMINAR: the clades of ONE tree are pairwise nested or disjoint and non-empty (tree structure: every data point is held by exactly one clone and clade(node) = own indices U clades of the children, which is the contract of get_clades / _clades); the counting half is Lean-checked in the thorough tier (MLaminar.lean)")
+    ctx.trust("networkx DiGraph; relabel, clean_tree and from_dict_nx are outside the contracts (bounded stand-in only)")
     from bounded import commands as BC
 
     r = BC.run_c16(ctx.tier, ctx.seed)
